@@ -187,6 +187,30 @@ for a, b in pairs:
             R.check("CIGAR write/read recovers the trace", f"cigar {sorted(opts)}", dict(desc, opts=opts),
                     lambda seqs=seqs, trace=trace, opts=opts: cigar_contract(seqs, trace, opts))
 
+# local alignments: the trace covers only a window of each sequence (clipped bases at the segment ends)
+LOCAL = [("ACACA", "CAC"), ("CACAC", "ACA"), ("AACCA", "ACCAA")]
+for a, b in LOCAL:
+    seqs = [seq.NucleotideSequence(a), seq.NucleotideSequence(b)]
+    for i0 in range(0, 2):
+        for j0 in range(0, 3):
+            for ln in (1, 2):
+                if i0 + ln + 1 > len(a) or j0 + ln > len(b):
+                    continue
+                for shape in ("match", "del", "ins"):
+                    if shape == "match":
+                        trace = [(i0 + k, j0 + k) for k in range(ln)]
+                    elif shape == "del":
+                        trace = [(i0, j0), (i0 + 1, -1)] + [(i0 + 2 + k, j0 + 1 + k) for k in range(ln - 1) if i0 + 2 + k < len(a) and j0 + 1 + k < len(b)]
+                    else:
+                        if j0 + 2 >= len(b):
+                            continue
+                        trace = [(i0, j0), (-1, j0 + 1), (i0 + 1, j0 + 2)]
+                    if len(trace) < 1 or trace[-1][1] == -1 or trace[0][1] == -1:
+                        continue
+                    for opts in ({}, {"hard_clip": True}, {"distinguish_matches": True, "hard_clip": True}):
+                        R.check("CIGAR write/read recovers the trace", f"local cigar {sorted(opts)}", {"seqs": [a, b], "trace": trace, "opts": opts},
+                                lambda seqs=seqs, trace=trace, opts=opts: cigar_contract(seqs, trace, opts))
+
 # three rows, staggered
 S3 = [seq.NucleotideSequence(x) for x in ("ACGTAC", "GTACGT", "ACGT")]
 T3 = [
